@@ -538,7 +538,28 @@ fn wrap_hidden_only(mut p: P, it: &J) -> P {
 }
 
 pub fn level_fields(level: &J) -> Vec<P> {
-    let mut fields: Vec<P> = arr(level, "named").iter().map(build_node).collect();
+    // adjacent subcommands marked `joined` are the alternatives of one repeated choice:
+    // `construct!([build, test, clean]).many()`; the choice sits where its first command is declared
+    let mut fields: Vec<P> = Vec::new();
+    let mut done: Vec<String> = Vec::new();
+    for f in arr(level, "named") {
+        let j = s(f, "joined");
+        if j.is_empty() {
+            fields.push(build_node(f));
+        } else if !done.iter().any(|x| x == j) {
+            done.push(j.to_string());
+            let cmds: Vec<P> = arr(level, "named")
+                .iter()
+                .filter(|g| s(g, "joined") == j)
+                .map(|g| {
+                    let mut g = g.clone();
+                    g["arity"] = J::String("one".into());
+                    build_node(&g)
+                })
+                .collect();
+            fields.push(alt(cmds).many().map(Val::List).boxed());
+        }
+    }
     if let Some(tail) = level.get("tail") {
         match s(tail, "kind") {
             "pos" => {
